@@ -162,12 +162,20 @@ def _policy(ck: Checker, df: Func) -> None:
     rets = [n for n in g.nodes.values() if n.kind == "stmt" and isinstance(n.ast, ast.Return) and n.ast.value is not None]
     ck.floor("C19.policy", len(rets), 1, "returns in the policy diff")
     loops = [h for h in g.nodes.values() if h.kind == "for"]
+    # the policy: the `allowed` parameter itself, or a local defined as `allowed or [<default>]`
+    policy_names = {"allowed"}
+    or_defaults = []
+    for a in walk_own(df.node):
+        if isinstance(a, ast.Assign) and len(a.targets) == 1 and isinstance(a.targets[0], ast.Name) and isinstance(a.value, ast.BoolOp) and isinstance(a.value.op, ast.Or) \
+                and len(a.value.values) == 2 and norm(a.value.values[0]) == "allowed" and isinstance(a.value.values[1], (ast.List, ast.Tuple)):
+            policy_names.add(a.targets[0].id)
+            or_defaults.append(a.value.values[1])
     checked = None
     for h in loops:
         body = [x for x in g.nodes.values() if h.id in x.loops and x.id != h.id]
         for t in body:
             e = t.ast
-            if t.kind == "test" and isinstance(e, ast.Compare) and len(e.ops) == 1 and isinstance(e.ops[0], (ast.NotIn, ast.In)) and norm(e.comparators[0]) == "allowed":
+            if t.kind == "test" and isinstance(e, ast.Compare) and len(e.ops) == 1 and isinstance(e.ops[0], (ast.NotIn, ast.In)) and norm(e.comparators[0]) in policy_names:
                 bad_lab = "T" if isinstance(e.ops[0], ast.NotIn) else "F"
                 r = g.reach([d for lab, d in t.succ if lab == bad_lab], skip_node=lambda x: x.id == h.id)
                 raises = [g.nodes[x] for x in r if g.nodes[x].kind == "stmt" and isinstance(g.nodes[x].ast, ast.Raise)]
@@ -211,6 +219,8 @@ def _policy(ck: Checker, df: Func) -> None:
     pd = df.param_default("allowed")
     if not defaults and isinstance(pd, (ast.List, ast.Tuple)) and [getattr(e, "value", None) for e in pd.elts] == ["add"]:
         okd = True
+    if not defaults and not others and or_defaults and all([getattr(e, "value", None) for e in d_.elts] == ["add"] for d_ in or_defaults):
+        okd = True  # permitted = allowed or ["add"]
     ck.require(okd, "C19.policy", df, df.node, "default policy resolves to exactly ['add']", "the default merge policy is no longer exactly ['add'] applied when none is given", construct="default allowed == ['add']")
 
 
